@@ -103,7 +103,20 @@ fn run_case(ctx: &mut Ctx, c: &J, _n: u64) -> Outcome {
                     }
                     out.push(J::Array((0..r.len()).map(|i| j::val_norm(&r[i])).collect()));
                 }
-                Ok((json!({"cols": cols, "rows": out}), lenok && out.len() == n0, byname))
+                // the iterator protocol beyond next(): after one next(), nth(1) skips exactly one further row, len() follows
+                let mut lenok = lenok && out.len() == n0;
+                if n0 >= 3 {
+                    if let Ok(mut again) = p.select_rows(to_select(&c["q"])) {
+                        let first = again.next().map(|r| J::Array((0..r.len()).map(|i| j::val_norm(&r[i])).collect()));
+                        let third = again.nth(1).map(|r| J::Array((0..r.len()).map(|i| j::val_norm(&r[i])).collect()));
+                        let left = again.len();
+                        let rest = again.count();
+                        if first.as_ref() != out.first() || third.as_ref() != out.get(2) || left != n0 - 3 || rest != n0 - 3 {
+                            lenok = false;
+                        }
+                    }
+                }
+                Ok((json!({"cols": cols, "rows": out}), lenok, byname))
             }
             Err(e) => Err(e.to_string()),
         }
